@@ -104,8 +104,20 @@ def run(ctx):
             f.write(json.dumps(x) + "\n")
     with open(trace, "a") as f, open(search_trace) as g:
         f.write(g.read())
-    total, mism = vlib.judge_trace_parallel(ctx, "Trace_BinaryReader", "Trace_BinaryReader.cfg", trace, "judge",
-                                            parts=4 if ctx.quick else 12)
+    try:
+        total, mism = vlib.judge_trace_parallel(ctx, "Trace_BinaryReader", "Trace_BinaryReader.cfg", trace, "judge",
+                                                parts=4 if ctx.quick else 12)
+    except vlib.ToolError as e:
+        if not violations:
+            raise
+        # the generated cases already refute the property on this tree: report them; the judge's failure on
+        # a trace of a non-conforming implementation is noted, not allowed to mask the verdict
+        ctx.note("judge failed on the recorded trace (%s); reporting the %d replay violations" %
+                 (str(e).splitlines()[0], len(violations)))
+        vlib.finish(ctx, LEVEL, {"states": mc.distinct, "transitions": rep.get("ops_executed", 0),
+                                 "traces_validated_against_impl": n_cases[0], "samples": sample_cases[:1] or ["-"],
+                                 "explanation": "trace judge did not complete; verdict from generated cases only"},
+                    violations, ASSUMPTIONS)
     ctx.note("judge: %d events, %d mismatches" % (total, len(mism)))
     seen_case = set()
     planted_seen = False
